@@ -1,6 +1,6 @@
 (* Pins: frozen copies of the C20 statements, and the literals of the hand-written model against
    what the translator reads from /repo's source on this run (Gen/S2026Consts.v). *)
-From Clvm Require Import Model.S2026 Model.Classic Proofs.S2026Proofs Proofs.S2026Probe Props.C20 Gen.S2026Consts.
+From Clvm Require Import Model.S2026 Model.Classic Proofs.S2026Proofs Proofs.S2026Probe Proofs.S2026Emit Props.C20 Gen.S2026Consts.
 Local Open Scope Z_scope.
 
 Check C20_decoder_total : forall (V : Type) (mk_atom : bytes -> V) (mk_pair : V -> V -> V)
@@ -28,6 +28,19 @@ Check C20_magic_backref_dispatch_partial : forall r,
   | b :: rest => b <> 0xff%N /\ b <> 0xfe%N /\ parse_atom_node b rest = Err SerializationError
   | [] => False
   end.
+
+Check C20_instructions_roundtrip_partial : forall t table instrs,
+  lookup_atoms (it_atoms (intern_tree t)) (sorted_no_nil (intern_tree t)) = Ok table ->
+  emit_instructions (intern_tree t) (sorted_no_nil (intern_tree t)) = Ok instrs ->
+  exists dp, exec_all (map Atom table) instrs ([], []) = Some (dp, [t]).
+Check C20_instr_step_is_exec : forall strict atoms st bs inst r,
+  rv strict bs = Ok (inst, r) -> - 2 ^ 55 <= inst ->
+  instr_step Atom Cons strict atoms st bs =
+    match exec1 atoms st inst with Some st' => Ok (st', r) | None => Err SerializationError end.
+Check C20_len_from_roundtrip : forall strict max_atom_len (e : bytes) (t : sexp),
+  wf_bytes e = true -> Z.of_nat (length e) < 2 ^ 64 ->
+  de_2026 Atom Cons strict max_atom_len e = Ok (t, []) ->
+  probe_2026 strict max_atom_len e = Ok (Z.of_nat (length e)).
 
 Lemma pin_magic : magic = src_magic.
 Proof. reflexivity. Qed.
